@@ -13,7 +13,8 @@ RULE = ('(programs) Hypothesis-generated sequences of up to 60 direct Portfolio.
         'update_market_value_of_asset calls over 1-5 assets with non-decreasing timestamps (incl. repeated '
         'instants), integer quantities biased to close exactly, flip through zero and re-open, prices down to 0.01, '
         'commissions >= 0; (histories) the M-broker rule-based machine where fills arrive through orders and marks '
-        'are the stub mid at every clock update. Oracle after every step: reported quantity == signed sum of '
+        'are the stub mid at every clock update (incl. ExecutionHandler batches: one broker update per order; fills '
+        'belong to the submitting portfolio). Oracle after every step: reported quantity == signed sum of '
         'tapped fill quantities; asset listed iff that sum != 0; market value per asset and in total == quantity x '
         'latest price (latest fill or mark, marks only while held, marks precede fills inside one broker update); '
         'total equity == cash + market value. Non-trivial = contains a close-to-zero-then-reopen or a one-fill '
